@@ -1,4 +1,6 @@
 import BinlogVerif.Lemmas.ImageSession
+import BinlogVerif.Lemmas.ImageInert
+import BinlogVerif.Lemmas.ImageJunk
 /-
   C08 — Crash recovery.
 
@@ -34,6 +36,13 @@ import BinlogVerif.Lemmas.ImageSession
       plausible header; if it does, the tool collects a spurious buffer (C20 still guarantees that
       it consists of whole entries).  A queue's buffer and the counted part of a metadata buffer need
       NO such hypothesis: the tool jumps over them.
+      WEAKEST FORM (theorems `…_inert`, hypothesis `ImageOkI`): real images DO contain stale copies of
+      the magic numbers (a local variable in a dead stack frame, …) followed by garbage; the tool
+      copes because it rejects the candidate and resumes behind the 8 magic bytes.  `Inert f rest`:
+      at every position of `f` either no magic number starts or the candidate behind it is rejected
+      (`readMetadata … = none` / `readData … = .ok none`).  All theorems hold under `ImageOkI`; the
+      `ImageOk` versions are corollaries.  No "no straddling" side condition is needed: a rejected
+      magic number cannot run into the magic number of a following block (`exp_jump_meta/data`).
    H2 64-bit fields: session id, metadata size, queue capacity `< 2^64`; payloads `< 2^32` (`PayloadOk`).
    H3 `ChanImage.Ok` — C01 + C04 for the queue indices/buffer in the image.
    H4 theorems 2 (explicit form) and 4 are for one session id (`std::sort` on buffers of one session
@@ -48,6 +57,18 @@ open BinlogVerif BinlogVerif.Recovery BinlogVerif.Image BinlogVerif.Sess
 
 /-! ### 1. the scan finds exactly the blocks that carry a magic -/
 
+/-- **C08.1 (weakest hypothesis: junk magic numbers allowed).**  On an image made of fillers and
+    blocks in which the tool accepts no block at any position outside the blocks that carry a magic
+    (stale magic numbers followed by a rejected candidate may occur anywhere in fillers, unused
+    capacity and blocks without magic), the scan returns exactly, in image order, one buffer per
+    block that carries a magic.  In particular no block is skipped when the scan resumes 8 bytes
+    behind a rejected magic number. -/
+theorem c08_scan_blocks_inert (img : List (Bytes × Piece)) (t : Bytes) (h : ImageOkI img t)
+    (fuel : Nat) (hf : (flat img t).length < fuel) :
+    scan fuel (flat img t) = .ok (img.filterMap (·.2.recovered)) := by
+  rw [scan_eq_scanAll fuel _ hf]
+  exact scanAll_image_inert img t h
+
 /-- **C08.1 (finest hypothesis).**  On an image made of fillers and blocks, with no magic number
     anywhere but at the start of the blocks that carry one, the scan (with any fuel exceeding the
     image length — `recover` uses length + 1) returns exactly, in image order, one buffer per block
@@ -55,9 +76,8 @@ open BinlogVerif BinlogVerif.Recovery BinlogVerif.Image BinlogVerif.Sess
     `⟨data, session, frames pending⟩` for a queue (`Image.expected`, `Piece.recovered`). -/
 theorem c08_scan_blocks (img : List (Bytes × Piece)) (t : Bytes) (h : ImageOk img t)
     (fuel : Nat) (hf : (flat img t).length < fuel) :
-    scan fuel (flat img t) = .ok (img.filterMap (·.2.recovered)) := by
-  rw [scan_eq_scanAll fuel _ hf]
-  exact scanAll_image img t h
+    scan fuel (flat img t) = .ok (img.filterMap (·.2.recovered)) :=
+  c08_scan_blocks_inert img t (imageOkI_of_imageOk h) fuel hf
 
 /-- **C08.1 (simple hypothesis).**  The same when fillers, the bytes behind the size field of
     metadata blocks, and blocks without magic do not contain the byte 0xBC. -/
@@ -103,22 +123,75 @@ theorem c08_meta_state_ok (st : MetaState) (sess : Nat) (hst : st.Ok) (hs : sess
 
 /-! ### 2. what the tool writes -/
 
-/-- **C08.2 (any sessions).**  The tool does not fail and writes the expected buffers, sorted by
-    (session, type), concatenated. -/
-theorem c08_recovered_sorted (img : List (Bytes × Piece)) (t : Bytes) (h : ImageOk img t) :
+/-- **C08.2 (any sessions, junk magic numbers allowed).**  The tool does not fail and writes the
+    expected buffers, sorted by (session, type), concatenated. -/
+theorem c08_recovered_sorted_inert (img : List (Bytes × Piece)) (t : Bytes) (h : ImageOkI img t) :
     recover (flat img t) = .ok (((expected img).mergeSort bufLe).map (·.buffer)).flatten := by
   unfold recover
-  rw [c08_scan_blocks img t h _ (Nat.lt_succ_self _)]
+  rw [c08_scan_blocks_inert img t h _ (Nat.lt_succ_self _)]
   rfl
 
-/-- **C08.2 (one session).**  The tool writes: the committed entries of every metadata block that
-    carries the magic (blocks in image order), then the committed-but-unreleased entries of every
-    queue that carries the magic (queues in image order) — as one well-formed stream of entries. -/
-theorem c08_recovered_content (img : List (Bytes × Piece)) (t : Bytes) (h : ImageOk img t)
+/-- **C08.2 (one session, junk magic numbers allowed).**  The tool writes: the committed entries of
+    every metadata block that carries the magic (blocks in image order), then the
+    committed-but-unreleased entries of every queue that carries the magic (queues in image order)
+    — as one well-formed stream of entries. -/
+theorem c08_recovered_content_inert (img : List (Bytes × Piece)) (t : Bytes) (h : ImageOkI img t)
     (sess : Nat) (hone : ∀ b ∈ expected img, b.session = sess) :
     recover (flat img t) = .ok (frames (metaPayloads img ++ chanPayloads img)) := by
-  rw [c08_recovered_sorted img t h, mergeSort_one_session _ sess hone, List.map_append, List.flatten_append,
+  rw [c08_recovered_sorted_inert img t h, mergeSort_one_session _ sess hone, List.map_append, List.flatten_append,
     meta_buffers, chan_buffers, frames_append]
+
+/-- **C08.2 (any sessions)**, hypothesis `ImageOk` -/
+theorem c08_recovered_sorted (img : List (Bytes × Piece)) (t : Bytes) (h : ImageOk img t) :
+    recover (flat img t) = .ok (((expected img).mergeSort bufLe).map (·.buffer)).flatten :=
+  c08_recovered_sorted_inert img t (imageOkI_of_imageOk h)
+
+/-- **C08.2 (one session)**, hypothesis `ImageOk` -/
+theorem c08_recovered_content (img : List (Bytes × Piece)) (t : Bytes) (h : ImageOk img t)
+    (sess : Nat) (hone : ∀ b ∈ expected img, b.session = sess) :
+    recover (flat img t) = .ok (frames (metaPayloads img ++ chanPayloads img)) :=
+  c08_recovered_content_inert img t (imageOkI_of_imageOk h) sess hone
+
+/-- **C08.2 with accepted empty junk.**  Real images also contain junk magic numbers behind which the
+    tool ACCEPTS a block with an EMPTY buffer (a stale metadata magic number followed by a pointer
+    and eight zero bytes: size 0).  Under `ImageOkE` (`InertE`: such junk lies inside fillers, unused
+    capacity or blocks without magic) the scan returns the expected buffers interleaved with empty
+    ones — which carry arbitrary session ids and sit anywhere in the sorted list — and the bytes
+    written are exactly those of C08.2: the stable sort commutes with dropping empty buffers
+    (`mergeSort_filter`). -/
+theorem c08_recovered_output_junk (img : List (Bytes × Piece)) (t : Bytes) (h : ImageOkE img t) :
+    ∃ bufs, Recovery.scan ((flat img t).length + 1) (flat img t) = .ok bufs ∧
+      bufs.filter (fun b => !b.buffer.isEmpty) = (expected img).filter (fun b => !b.buffer.isEmpty) ∧
+      recover (flat img t) = .ok (((expected img).mergeSort bufLe).map (·.buffer)).flatten := by
+  obtain ⟨out, hE, hfil⟩ := exp_of_imageOkE img t h
+  have hscan : scan ((flat img t).length + 1) (flat img t) = .ok out := scanAll_of_exp _ _ hE
+  refine ⟨out, hscan, hfil, ?_⟩
+  unfold recover
+  rw [hscan]
+  simp only
+  rw [sorted_output_congr out (expected img) hfil]
+
+/-- consequently C08.3 also holds with accepted empty junk -/
+theorem c08_no_uncommitted_junk (img : List (Bytes × Piece)) (t : Bytes) (h : ImageOkE img t) (out : Bytes)
+    (hout : recover (flat img t) = .ok out) :
+    ∃ ps, out = frames ps ∧ ∀ p ∈ ps, p ∈ metaPayloads img ∨ p ∈ chanPayloads img := by
+  rw [(c08_recovered_output_junk img t h).choose_spec.2.2] at hout
+  injection hout with hout
+  subst hout
+  have hall : ∀ b ∈ (expected img).mergeSort bufLe, ∃ ps, b.buffer = frames ps ∧
+      ∀ p ∈ ps, p ∈ metaPayloads img ∨ p ∈ chanPayloads img :=
+    fun b hb => expected_payloads' img b (List.mem_mergeSort.mp hb)
+  generalize (expected img).mergeSort bufLe = sorted at hall
+  induction sorted with
+  | nil => exact ⟨[], rfl, by simp⟩
+  | cons b bs ih =>
+    obtain ⟨ps1, e1, m1⟩ := hall b (by simp)
+    obtain ⟨ps2, e2, m2⟩ := ih (fun x hx => hall x (by simp [hx]))
+    refine ⟨ps1 ++ ps2, by rw [List.map_cons, List.flatten_cons, e1, e2, frames_append], ?_⟩
+    intro p hp
+    cases List.mem_append.mp hp with
+    | inl h => exact m1 p h
+    | inr h => exact m2 p h
 
 /-! ### 3. nothing torn, nothing uncommitted -/
 
@@ -127,16 +200,16 @@ theorem c08_recovered_content (img : List (Bytes × Piece)) (t : Bytes) (h : Ima
     or a committed, unreleased entry of a queue that carries the magic.  In particular the bytes of
     an entry being inserted (`MetaState.inserted … extra`), a block under construction, and the
     part of a queue buffer outside `[R, W)` contribute nothing. -/
-theorem c08_no_uncommitted (img : List (Bytes × Piece)) (t : Bytes) (h : ImageOk img t) (out : Bytes)
+theorem c08_no_uncommitted_inert (img : List (Bytes × Piece)) (t : Bytes) (h : ImageOkI img t) (out : Bytes)
     (hout : recover (flat img t) = .ok out) :
     (splitEntries out).2.2 = .clean ∧
     ∀ p ∈ (splitEntries out).1, p ∈ metaPayloads img ∨ p ∈ chanPayloads img := by
-  rw [c08_recovered_sorted img t h] at hout
+  rw [c08_recovered_sorted_inert img t h] at hout
   injection hout with hout
   subst hout
   have hall : ∀ b ∈ (expected img).mergeSort bufLe, ∃ ps, b.buffer = frames ps ∧ (∀ p ∈ ps, PayloadOk p) ∧
       ∀ p ∈ ps, p ∈ metaPayloads img ∨ p ∈ chanPayloads img :=
-    fun b hb => expected_payloads img t h b (List.mem_mergeSort.mp hb)
+    fun b hb => expected_payloads_inert img t h b (List.mem_mergeSort.mp hb)
   generalize (expected img).mergeSort bufLe = sorted at hall
   have key : ∃ ps, (sorted.map (·.buffer)).flatten = frames ps ∧ (∀ p ∈ ps, PayloadOk p) ∧
       ∀ p ∈ ps, p ∈ metaPayloads img ∨ p ∈ chanPayloads img := by
@@ -159,45 +232,28 @@ theorem c08_no_uncommitted (img : List (Bytes × Piece)) (t : Bytes) (h : ImageO
   rw [e, C12.splitEntries_frames ps o]
   exact ⟨rfl, m⟩
 
+/-- **C08.3**, hypothesis `ImageOk` -/
+theorem c08_no_uncommitted (img : List (Bytes × Piece)) (t : Bytes) (h : ImageOk img t) (out : Bytes)
+    (hout : recover (flat img t) = .ok out) :
+    (splitEntries out).2.2 = .clean ∧
+    ∀ p ∈ (splitEntries out).1, p ∈ metaPayloads img ∨ p ∈ chanPayloads img :=
+  c08_no_uncommitted_inert img t (imageOkI_of_imageOk h) out hout
+
 /-- C08.3 for one session, explicit: the entries of the output are exactly these, in this order -/
-theorem c08_recovered_entries (img : List (Bytes × Piece)) (t : Bytes) (h : ImageOk img t)
+theorem c08_recovered_entries_inert (img : List (Bytes × Piece)) (t : Bytes) (h : ImageOkI img t)
     (sess : Nat) (hone : ∀ b ∈ expected img, b.session = sess) :
     ∃ out, recover (flat img t) = .ok out ∧
       splitEntries out = (metaPayloads img ++ chanPayloads img, out.length, .clean) := by
-  refine ⟨_, c08_recovered_content img t h sess hone, ?_⟩
+  refine ⟨_, c08_recovered_content_inert img t h sess hone, ?_⟩
   apply C12.splitEntries_frames
   intro p hp
-  -- every payload the image holds is legal: it sits in some expected buffer
-  have hok : ∀ (img' : List (Bytes × Piece)), ImageOk img' t →
-      ∀ p, p ∈ metaPayloads img' ∨ p ∈ chanPayloads img' → PayloadOk p := by
-    intro img' h'
-    induction img' with
-    | nil => intro p hp; simp [metaPayloads, chanPayloads] at hp
-    | cons x rest ih =>
-      obtain ⟨f, pc⟩ := x
-      have h'' : NoMagicIn f (pc.bytes ++ flat rest t) ∧ pc.Ok (flat rest t) ∧ ImageOk rest t := h'
-      obtain ⟨_, h2, h3⟩ := h''
-      intro p hp
-      simp only [metaPayloads, chanPayloads, List.flatMap_cons, List.mem_append] at hp
-      have ih := ih h3 p
-      simp only [metaPayloads, chanPayloads] at ih
-      rcases hp with (hp | hp) | (hp | hp)
-      · cases pc with
-        | metaOn s es extra => exact h2.2.2.1 p hp
-        | chan s c => simp [Piece.metaPayloads] at hp
-        | off bs => simp [Piece.metaPayloads] at hp
-      · exact ih (.inl hp)
-      · cases pc with
-        | metaOn s es extra => simp [Piece.chanPayloads] at hp
-        | chan s c =>
-          by_cases hm : c.magicOn = true
-          · simp only [Piece.chanPayloads, hm, if_true] at hp
-            simp only [Piece.Ok, hm, if_true] at h2
-            exact h2.2.2.2.2.2.2.2 p hp
-          · simp [Piece.chanPayloads, hm] at hp
-        | off bs => simp [Piece.chanPayloads] at hp
-      · exact ih (.inr hp)
-  exact hok img h p (List.mem_append.mp hp)
+  exact payloads_ok_inert img t h p (List.mem_append.mp hp)
+
+theorem c08_recovered_entries (img : List (Bytes × Piece)) (t : Bytes) (h : ImageOk img t)
+    (sess : Nat) (hone : ∀ b ∈ expected img, b.session = sess) :
+    ∃ out, recover (flat img t) = .ok out ∧
+      splitEntries out = (metaPayloads img ++ chanPayloads img, out.length, .clean) :=
+  c08_recovered_entries_inert img t (imageOkI_of_imageOk h) sess hone
 
 /-! ### 4. complete and printable, relative to the session model -/
 
@@ -213,10 +269,10 @@ theorem c08_recovered_entries (img : List (Bytes × Piece)) (t : Bytes) (h : Ima
      (a) contains the unconsumed entries of every channel (contiguous, in order); hence, with C02,
          every event whose log call has completed is either already delivered to the output or in
          the recovered log. -/
-theorem c08_complete_and_printable (cs : ClockSync) (ops : List Op) (s : Session)
+theorem c08_complete_and_printable_inert (cs : ClockSync) (ops : List Op) (s : Session)
     (hok : SyncTrace (init cs) ops) (hrun : exec (init cs) ops = some s)
     (sess : Nat) (items : List (Bytes × Image.Item)) (t : Bytes)
-    (himg : ImageOk (toImage s sess items) t) (hrep : Represents s items) :
+    (himg : ImageOkI (toImage s sess items) t) (hrep : Represents s items) :
     recover (flat (toImage s sess items) t) = .ok (writeBytes (recoveredLog s items)) ∧
     SelfContained (recoveredLog s items) ∧
     (∀ x ∈ items, ∀ c pre ci, x.2 = Image.Item.chan c pre ci → ci.magicOn = true →
@@ -227,7 +283,7 @@ theorem c08_complete_and_printable (cs : ClockSync) (ops : List Op) (s : Session
   have ha := accValid_exec cs ops s hok.traceOk hrun
   have hc02 := (C02.c02_exactly_once_in_order cs ops s hok hrun).1
   refine ⟨?_, recoveredLog_selfContained s items hm ha hrep, ?_, ?_, ?_⟩
-  · rw [c08_recovered_content _ t himg sess (toImage_one_session s sess items), toImage_metaPayloads,
+  · rw [c08_recovered_content_inert _ t himg sess (toImage_one_session s sess items), toImage_metaPayloads,
       toImage_chanPayloads s sess items (fun x hx c pre ci hit hmg => (hrep.chanOk x hx c pre ci hit hmg).2.1)]
     simp [writeBytes, recoveredLog]
   · intro x hx c pre ci hit hmg
@@ -237,11 +293,45 @@ theorem c08_complete_and_printable (cs : ClockSync) (ops : List Op) (s : Session
   · intro w e he
     exact accepted_delivered_or_recovered s items hrep hc02 w e he
 
+/-- **C08.4**, hypothesis `ImageOk` -/
+theorem c08_complete_and_printable (cs : ClockSync) (ops : List Op) (s : Session)
+    (hok : SyncTrace (init cs) ops) (hrun : exec (init cs) ops = some s)
+    (sess : Nat) (items : List (Bytes × Image.Item)) (t : Bytes)
+    (himg : ImageOk (toImage s sess items) t) (hrep : Represents s items) :
+    recover (flat (toImage s sess items) t) = .ok (writeBytes (recoveredLog s items)) ∧
+    SelfContained (recoveredLog s items) ∧
+    (∀ x ∈ items, ∀ c pre ci, x.2 = Image.Item.chan c pre ci → ci.magicOn = true →
+        (pre ++ c.entries) <:+: recoveredLog s items) ∧
+    (∀ c ∈ s.channels, c.entries <:+: recoveredLog s items) ∧
+    (∀ w e, e ∈ ofW w s.accepted → e ∈ ofW w s.delivered ∨ e ∈ recoveredLog s items) :=
+  c08_complete_and_printable_inert cs ops s hok hrun sess items t (imageOkI_of_imageOk himg) hrep
+
 /-- **C08.4 with the metadata streams as `MetaState`s.**  The clock-sync stream is in ANY state
     `csSt` and the event-source stream in ANY state `srcSt` whose committed entries are those of `s`;
     the image consists, in any order, of their blocks and of `others` (queues, blocks without
     magic).  Its blocks are exactly `csSt.blocks ++ srcSt.blocks ++ others` (first conjunct) and all
     conclusions of C08.4 hold. -/
+theorem c08_complete_and_printable_states_inert (cs : ClockSync) (ops : List Op) (s : Session)
+    (hok : SyncTrace (init cs) ops) (hrun : exec (init cs) ops = some s)
+    (sess : Nat) (csSt srcSt : MetaState) (others : List Image.Item) (items : List (Bytes × Image.Item)) (t : Bytes)
+    (hcs : csSt.committed = s.clockSyncs.map Entry.payload) (hsrc : srcSt.committed = s.sources.map Entry.payload)
+    (hperm : (items.map (·.2)).Perm (csSt.items Image.Item.clockSyncs sess ++ srcSt.items Image.Item.sources sess ++ others))
+    (hchan : ∀ c pre ci, Image.Item.chan c pre ci ∈ others → ci.magicOn = true →
+      (c ∈ s.channels ∨ c.entries = []) ∧ ci.pending = (pre ++ c.entries).map Entry.payload ∧
+      ∀ e ∈ pre, (c.owner, e) ∈ s.accepted)
+    (hall : ∀ c ∈ s.channels, c.entries ≠ [] → ∃ pre ci, Image.Item.chan c pre ci ∈ others ∧ ci.magicOn = true)
+    (himg : ImageOkI (toImage s sess items) t) :
+    ((toImage s sess items).map (·.2.bytes)).Perm
+      (csSt.blocks sess ++ srcSt.blocks sess ++ others.map (fun it => (it.piece s sess).bytes)) ∧
+    recover (flat (toImage s sess items) t) = .ok (writeBytes (recoveredLog s items)) ∧
+    SelfContained (recoveredLog s items) ∧
+    (∀ c ∈ s.channels, c.entries <:+: recoveredLog s items) ∧
+    (∀ w e, e ∈ ofW w s.accepted → e ∈ ofW w s.delivered ∨ e ∈ recoveredLog s items) := by
+  have hrep := represents_of_states s sess csSt srcSt others items hperm hchan hall
+  obtain ⟨h1, h2, _, h4, h5⟩ := c08_complete_and_printable_inert cs ops s hok hrun sess items t himg hrep
+  exact ⟨blocks_of_states s sess csSt srcSt others items hperm hcs hsrc, h1, h2, h4, h5⟩
+
+/-- the same with hypothesis `ImageOk` -/
 theorem c08_complete_and_printable_states (cs : ClockSync) (ops : List Op) (s : Session)
     (hok : SyncTrace (init cs) ops) (hrun : exec (init cs) ops = some s)
     (sess : Nat) (csSt srcSt : MetaState) (others : List Image.Item) (items : List (Bytes × Image.Item)) (t : Bytes)
@@ -257,10 +347,9 @@ theorem c08_complete_and_printable_states (cs : ClockSync) (ops : List Op) (s : 
     recover (flat (toImage s sess items) t) = .ok (writeBytes (recoveredLog s items)) ∧
     SelfContained (recoveredLog s items) ∧
     (∀ c ∈ s.channels, c.entries <:+: recoveredLog s items) ∧
-    (∀ w e, e ∈ ofW w s.accepted → e ∈ ofW w s.delivered ∨ e ∈ recoveredLog s items) := by
-  have hrep := represents_of_states s sess csSt srcSt others items hperm hchan hall
-  obtain ⟨h1, h2, _, h4, h5⟩ := c08_complete_and_printable cs ops s hok hrun sess items t himg hrep
-  exact ⟨blocks_of_states s sess csSt srcSt others items hperm hcs hsrc, h1, h2, h4, h5⟩
+    (∀ w e, e ∈ ofW w s.accepted → e ∈ ofW w s.delivered ∨ e ∈ recoveredLog s items) :=
+  c08_complete_and_printable_states_inert cs ops s hok hrun sess csSt srcSt others items t hcs hsrc hperm hchan hall
+    (imageOkI_of_imageOk himg)
 
 /-! ### non-vacuity (theorems 1–3) -/
 
@@ -420,5 +509,68 @@ example : SelfContained (recoveredLog exS exItems) :=
       subst hc
       exact ⟨[], exCi, by simp, rfl⟩)
     (imageOk_of_okF _ _ exItems_ok)).2.2.1
+
+/-! ### non-vacuity (junk magic numbers) -/
+
+/-- a stale metadata magic number followed by a pointer and a huge size field -/
+def junkMeta : Bytes := metadataMagic ++ le 8 0x7FFD12345678 ++ le 8 0xFFFFFFFFFFFF
+/-- a stale data magic number followed by a header with `W = 100 > capacity = 10` -/
+def junkData : Bytes := dataMagic ++ le 8 5 ++ le 8 100 ++ le 8 0 ++ le 8 10 ++ le 8 0 ++ le 8 0
+/-- a stale metadata magic number followed by a pointer and eight zero bytes: ACCEPTED, size 0 -/
+def junkEmpty : Bytes := metadataMagic ++ le 8 0x7FFD12345678 ++ le 8 0
+
+/-- junk inside fillers, a junk data magic in the unused capacity of the metadata block, a bare
+    metadata magic number directly in front of the queue's magic number (the rejected candidate
+    is the queue's own header; the scan resumes exactly at the queue's magic), and as trailing
+    filler a magic number cut off by the end of the image -/
+def exJunk : List (Bytes × Piece) :=
+  [([1, 2] ++ junkMeta ++ [3], .metaOn 77 [[9]] (dataMagic ++ [0, 0])),
+   (junkData ++ [4] ++ junkMeta ++ metadataMagic, .chan 77 exChan)]
+
+set_option maxRecDepth 100000 in
+theorem exJunk_ok : ImageOkI exJunk metadataMagic := by
+  refine ⟨inert_of_inertB (by decide), ⟨by decide, by decide, by simp [PayloadOk], inert_of_inertB (by decide)⟩,
+    inert_of_inertB (by decide), ?_, inert_of_inertB (by decide)⟩
+  show (if exChan.magicOn = true then (77 < 2 ^ 64 ∧ exChan.cap < 2 ^ 64 ∧ exChan.Ok)
+    else Inert (exChan.block 77) (flat [] metadataMagic))
+  rw [if_pos (show exChan.magicOn = true from rfl)]
+  exact ⟨by decide, by decide, exChan_ok⟩
+
+/-- the image does not satisfy the stronger hypothesis H1 -/
+example : ¬ ImageOk exJunk metadataMagic := by
+  intro h
+  have h' : NoMagicIn ([1, 2] ++ junkMeta ++ [3]) _ ∧ _ := h
+  have h1 := h'.1
+  simp [junkMeta, metadataMagic_eq, NoMagicIn, StartsMagic] at h1
+
+example : recover (flat exJunk metadataMagic) = .ok (frames [[9], [41], [42]]) :=
+  c08_recovered_content_inert exJunk _ exJunk_ok 77 (by decide)
+
+set_option maxRecDepth 100000 in
+/-- running the model of the tool's scan on the bytes: the junk candidates are rejected, no block is skipped -/
+example : (scan ((flat exJunk metadataMagic).length + 1) (flat exJunk metadataMagic)).toOption.map (·.map (·.buffer))
+    = some [frame [9], frame [41] ++ frame [42]] := by decide
+
+/-- accepted empty junk in a filler -/
+def exJunkE : List (Bytes × Piece) :=
+  [([1] ++ junkEmpty ++ junkMeta ++ [3], .metaOn 77 [[9]] []), (junkEmpty, .chan 77 exChan)]
+
+set_option maxRecDepth 100000 in
+theorem exJunkE_ok : ImageOkE exJunkE [] := by
+  refine ⟨inertE_of_inertEB (by decide), ⟨by decide, by decide, by simp [PayloadOk], trivial⟩,
+    inertE_of_inertEB (by decide), ?_, trivial⟩
+  show (if exChan.magicOn = true then (77 < 2 ^ 64 ∧ exChan.cap < 2 ^ 64 ∧ exChan.Ok)
+    else InertE (exChan.block 77) (flat [] []))
+  rw [if_pos (show exChan.magicOn = true from rfl)]
+  exact ⟨by decide, by decide, exChan_ok⟩
+
+set_option maxRecDepth 100000 in
+/-- the scan collects two empty buffers with the junk session id … -/
+example : (scan ((flat exJunkE []).length + 1) (flat exJunkE [])).toOption.map (·.map (fun b => (b.session, b.buffer)))
+    = some [(0x7FFD12345678, []), (77, frame [9]), (0x7FFD12345678, []), (77, frame [41] ++ frame [42])] := by decide
+
+/-- … and the output is that of the image without them -/
+example : recover (flat exJunkE []) = .ok (((expected exJunkE).mergeSort bufLe).map (·.buffer)).flatten :=
+  (c08_recovered_output_junk exJunkE [] exJunkE_ok).choose_spec.2.2
 
 end BinlogVerif.C08
